@@ -132,6 +132,26 @@ fn format_decimal(n: f64) -> String {
     }
 }
 
+/// ECMAScript ToUint32 (ECMA-262 7.1.7): truncate toward zero, then reduce modulo 2^32.
+///
+/// A plain `as u32` / `as i32` cast saturates instead of wrapping, so `2**32 | 0`
+/// would give 2147483647 rather than 0.
+pub fn to_uint32(n: f64) -> u32 {
+    if n.is_nan() || n.is_infinite() {
+        return 0;
+    }
+    let mut m = math::trunc(n) % 4294967296.0;
+    if m < 0.0 {
+        m += 4294967296.0;
+    }
+    m as u32
+}
+
+/// ECMAScript ToInt32 (ECMA-262 7.1.6): ToUint32 reinterpreted as a signed 32-bit integer.
+pub fn to_int32(n: f64) -> i32 {
+    to_uint32(n) as i32
+}
+
 /// Convert a JavaScript string to a number according to ECMAScript ToNumber.
 ///
 /// The string is first trimmed of leading and trailing whitespace.
